@@ -27,11 +27,11 @@ REQUIRED = {
     "quick": {"chunks_probed_algebraically": 300, "recursion_points": 50000, "class/correlated_config": 40,
               "class/zero_volatility_market": 40, "class/change_point": 150, "class/shock_change": 30,
               "class/correlation_change": 30, "class/crossed_2_chunks": 40, "statistical_runs": 2,
-              "history_prefix_checks": 150},
+              "history_prefix_checks": 150, "class/late_start_market": 10},
     "thorough": {"chunks_probed_algebraically": 9000, "recursion_points": 1500000, "class/correlated_config": 1200,
                  "class/zero_volatility_market": 1200, "class/change_point": 4500, "class/shock_change": 900,
                  "class/correlation_change": 900, "class/crossed_2_chunks": 1200, "statistical_runs": 40,
-                 "history_prefix_checks": 4500},
+                 "history_prefix_checks": 4500, "class/late_start_market": 300},
 }
 CASE_TIMEOUT_S = 300
 
@@ -84,11 +84,17 @@ def gen_case(rng, tier, idx):
     for i in range(n):
         mk.append({"id": i, "initial": rng.choice([1.0, 100.0, 512.0, 25000.0]) * rng.choice([1, 1.37]),
                    "drift": rng.choice([0.0, 0.0, 0.001, -0.001, 0.01, -0.01]),
-                   "vol": rng.choice([0.0, 0.0005, 0.005, 0.02, 0.05])})
+                   "vol": rng.choice([0.0, 0.0005, 0.005, 0.02, 0.05, 0.05, 2e-9, 1e-7])})
     vol_ids = [m["id"] for m in mk if m["vol"] > 0]
     pairs = rand_corr(rng, vol_ids) if rng.random() < 0.7 else []
     while pairs and not is_pd(len(vol_ids), vol_ids, pairs):
         pairs.pop()
+    # pairs may be written in either orientation
+    pairs = [[b, a, c] if rng.random() < 0.5 else [a, b, c] for a, b, c in pairs]
+    if n >= 2 and rng.random() < 0.2:
+        # markets whose fundamental only starts moving later (add_market(start_at=...))
+        for m in rng.sample(mk[1:], rng.randint(1, len(mk) - 1)):
+            m["start"] = rng.choice([1, 7, 99, 100, 130])
     T = rng.choice([5, 40, 99, 100, 101, 150, 199, 200, 201, 250, 330, 350])
     changes = []
     for _ in range(rng.choice([0, 0, 1, 2, 3, 6])):
@@ -113,6 +119,14 @@ def gen_case(rng, tier, idx):
             changes.append({"t": t, "what": "setcorr", "m": a, "m2": b, "v": rng.choice([-0.5, 0.2, 0.6, 0.9])})
         elif n >= 2:
             changes.append({"t": t, "what": "rmcorr"})
+    # a market that has not started yet has no price to shock and no path to re-parameterise: changes that name
+    # a late-starting market are placed at or after its start (input domain, DESIGN.md 2.6/7)
+    st = {m["id"]: m.get("start", 0) for m in mk}
+    for c in changes:
+        for key in ("m", "m2"):
+            if key in c and c["t"] < st.get(c[key], 0):
+                c["t"] = min(T - 1, st[c[key]] + c["t"] % 5)
+    changes = [c for c in changes if all(c["t"] >= st.get(c.get(k, -1), 0) for k in ("m", "m2"))]
     changes.sort(key=lambda c: c["t"])
     return {"kind": "walk", "markets": mk, "corr": pairs, "T": T, "changes": changes, "seed": rng.randrange(1 << 30)}
 
@@ -166,6 +180,12 @@ def algebraic_probe(res, gen, draws, case):
         if not np.all(row == drifts[m]):
             res.violation("zero-vol", "zero-volatility-log-return-is-not-exactly-the-drift",
                           dict(wit, market=m, row=row[:3].tolist()))
+            return
+    for m in ch:
+        row = R[ids.index(m)]
+        if gen["length"] >= 3 and np.all(row == row[0]):
+            res.violation("transform", "positive-volatility-market-generated-without-noise",
+                          dict(wit, market=m, volatility=vols[m], row=row[:3].tolist()))
             return
     if not ch:
         return
@@ -232,7 +252,11 @@ def run_walk(case, res):
 
     markets = {}
     for m in mk:
-        f.add_market(market_id=m["id"], initial=m["initial"], drift=m["drift"], volatility=m["vol"])
+        if m.get("start"):
+            f.add_market(market_id=m["id"], initial=m["initial"], drift=m["drift"], volatility=m["vol"], start_at=m["start"])
+            res.count("class/late_start_market")
+        else:
+            f.add_market(market_id=m["id"], initial=m["initial"], drift=m["drift"], volatility=m["vol"])
         mo = Market(market_id=m["id"], prng=random.Random(m["id"]), simulator=sim, name="m%d" % m["id"])
         mo.setup({"tickSize": 1.0, "fundamentalPrice": m["initial"]})
         markets[m["id"]] = mo
@@ -242,7 +266,8 @@ def run_walk(case, res):
     T = case["T"]
     changes = list(case["changes"])
     hist = {m["id"]: [] for m in mk}       # values as first read, per time
-    zero_ref = {m["id"]: (0, m["initial"]) for m in mk}   # (time, level) from which the closed form runs
+    zero_ref = {m["id"]: (m.get("start", 0), m["initial"]) for m in mk}   # (time, level) from which the closed form runs
+    starts = {m["id"]: m.get("start", 0) for m in mk}
     taps.add_sink(sink)
     dead = False
     min_gen = {}
@@ -266,8 +291,14 @@ def run_walk(case, res):
                 if t > 0:
                     prev = hist[mid][t - 1]
                     exp = ft.expected_next(mid, t - 1, prev)
-                    if exp is None:
-                        res.count("recursion_points_without_generation_record")
+                    if exp is None or t <= starts[mid]:
+                        # not generated (yet): a market that starts later keeps its initial value until then
+                        res.count("flat_points_before_start")
+                        if t <= starts[mid] and v != init[mid]:
+                            res.violation("initial", "fundamental-moves-before-its-configured-start",
+                                          {"market": mid, "time": t, "value": v, "initial": init[mid], "start_at": starts[mid]})
+                            dead = True
+                            break
                     else:
                         res.count("recursion_points")
                         if ft.latest_gen.get((mid, t - 1), 0) < min_gen.get(t - 1, min_gen_from[1] if t - 1 >= min_gen_from[0] else 0):
@@ -280,7 +311,7 @@ def run_walk(case, res):
                                           {"market": mid, "time": t, "value": v, "previous": prev, "expected": exp})
                             dead = True
                             break
-                    if params["vol"][mid] == 0.0:
+                    if params["vol"][mid] == 0.0 and t > starts[mid]:
                         t0, lvl = zero_ref[mid]
                         cf = lvl * math.exp(params["drift"][mid] * (t - t0))
                         res.count("closed_form_points")
@@ -316,7 +347,7 @@ def run_walk(case, res):
                             continue
                         f.change_volatility(market_id=ch["m"], volatility=ch["v"], time=t)
                         if ch["v"] == 0.0 and params["vol"][ch["m"]] != 0.0 or ch["v"] == 0.0:
-                            zero_ref[ch["m"]] = (t, hist[ch["m"]][t])
+                            zero_ref[ch["m"]] = (max(t, starts[ch["m"]]), hist[ch["m"]][t])
                         params["vol"][ch["m"]] = ch["v"]
                         if ch["v"] == 0.0:
                             # correlations with a zero-volatility market are ignored by construction
@@ -324,7 +355,7 @@ def run_walk(case, res):
                     elif what == "drift":
                         f.change_drift(market_id=ch["m"], drift=ch["v"], time=t)
                         params["drift"][ch["m"]] = ch["v"]
-                        zero_ref[ch["m"]] = (t, hist[ch["m"]][t])
+                        zero_ref[ch["m"]] = (max(t, starts[ch["m"]]), hist[ch["m"]][t])
                     elif what == "shock":
                         markets[ch["m"]].change_fundamental_price(scale=ch["v"])
                         res.count("class/shock_change")
@@ -334,7 +365,7 @@ def run_walk(case, res):
                                           {"market": ch["m"], "time": t, "value": newv, "expected": hist[ch["m"]][t] * ch["v"]})
                         hist[ch["m"]][t] = newv
                         snap[ch["m"]][t] = newv
-                        zero_ref[ch["m"]] = (t, newv)
+                        zero_ref[ch["m"]] = (max(t, starts[ch["m"]]), newv)
                         if f.get_fundamental_price(market_id=ch["m"], time=t) != newv:
                             res.violation("shock", "shocked-level-not-visible-in-fundamentals", {"market": ch["m"], "time": t})
                     elif what == "setcorr":
